@@ -55,6 +55,17 @@ func c12Scenarios(level int) []c12Scenario {
 	}
 	sc = append(sc, c12Scenario{"multi/mapped", multi, []string{"a.json", "b.json", "sub/c.json"}, genlab.Cfg{Package: "dflt", ResolveExt: []string{".json"}, Mappings: maps}})
 	sc = append(sc, c12Scenario{"multi/one-output", multi, []string{"sub/c.json", "a.json"}, genlab.Cfg{Package: "one", Output: "all.go", ResolveExt: []string{".json"}}})
+	// names that collide after normalisation (case, separators): any order-sensitive tie-break shows here
+	collide := J{"$id": "https://example.com/collide", "type": "object",
+		"properties": J{"id": str, "ID": in, "Id": J{"type": "boolean"}, "a-b": str, "a_b": in, "aB": J{"type": "number"},
+			"u": J{"$ref": "#/$defs/unit"}, "U": J{"$ref": "#/$defs/Unit"}},
+		"$defs": J{"Unit": J{"type": "object", "properties": J{"upper": str}, "required": A{"upper"}}, "unit": J{"type": "object", "properties": J{"lower": in}},
+			"UNIT": J{"type": "string", "enum": A{"x", "X"}}, "a-b": J{"type": "object", "properties": J{"dash": str}}, "a_b": J{"type": "object", "properties": J{"underscore": in}}}}
+	sc = append(sc, c12Scenario{"collide", []genlab.File{{Path: "s.json", Content: space.Text(collide)}}, []string{"s.json"}, genlab.Cfg{Package: "s", ResolveExt: []string{".json"}}})
+	// a reference cycle that returns to the entry file, whose root type has methods
+	ca := J{"$id": "https://example.com/ca", "type": "object", "properties": J{"name": str, "b": J{"$ref": "cb.json"}}, "required": A{"name"}}
+	cb := J{"$id": "https://example.com/cb", "type": "object", "properties": J{"v": in, "back": J{"$ref": "ca.json"}}, "required": A{"v"}}
+	sc = append(sc, c12Scenario{"cycle-to-entry", []genlab.File{{Path: "ca.json", Content: space.Text(ca)}, {Path: "cb.json", Content: space.Text(cb)}}, []string{"ca.json"}, genlab.Cfg{Package: "s", ResolveExt: []string{".json"}}})
 	// YAML input with many keys
 	yml := "$id: https://example.com/y\ntype: object\nproperties:\n  one: {type: string}\n  two: {type: integer}\n  three:\n    type: object\n    properties:\n      k1: {type: string}\n      k2: {type: boolean}\n      k3: {type: number}\nrequired: [one, two]\ndefinitions:\n  D1: {type: object, properties: {a: {type: string}}}\n  D2: {type: object, properties: {b: {type: string}}}\n"
 	sc = append(sc, c12Scenario{"yaml", []genlab.File{{Path: "s.yaml", Content: yml}}, []string{"s.yaml"}, genlab.Cfg{Package: "s", ResolveExt: []string{".yaml"}}})
@@ -466,19 +477,25 @@ func c12Locations(ctx *Ctx, sc c12Scenario, transitions, validated *int) {
 	type loc struct {
 		dir      string
 		absolute bool
+		spell    func(dir, a string) string // spelling of an argument path
 	}
 	root := ws.Dir("c12loc")
-	locs := []loc{{filepath.Join(root, "a"), false}, {filepath.Join(root, "deeper", "nested", "b"), true}, {filepath.Join(root, "x y", "c"), true}, {filepath.Join(root, "a"), false}}
+	plain := func(dir, a string) string { return a }
+	abs := func(dir, a string) string { return filepath.Join(dir, a) }
+	locs := []loc{{filepath.Join(root, "a"), false, plain}, {filepath.Join(root, "deeper", "nested", "b"), true, abs}, {filepath.Join(root, "x y", "c"), true, abs}, {filepath.Join(root, "a"), false, plain},
+		{filepath.Join(root, "d"), false, func(dir, a string) string { return "./" + a }},
+		{filepath.Join(root, "e"), false, func(dir, a string) string { return "updir/../" + a }},
+		{filepath.Join(root, "f"), true, func(dir, a string) string { return dir + "/./" + a }},
+		{filepath.Join(root, "g"), true, func(dir, a string) string { return dir + "//" + a }},
+		{filepath.Join(root, "h"), false, func(dir, a string) string { return "../h/" + a }}}
 	var ref string
 	for i, l := range locs {
 		os.RemoveAll(l.dir)
 		genlab.Materialise(l.dir, sc.files)
+		os.MkdirAll(filepath.Join(l.dir, "updir"), 0o755)
 		args := append([]string{}, sc.cfg.Flags()...)
 		for _, a := range sc.args {
-			if l.absolute {
-				a = filepath.Join(l.dir, a)
-			}
-			args = append(args, a)
+			args = append(args, l.spell(l.dir, a))
 		}
 		r := genlab.RunCLI(bin, l.dir, args, "", 60*time.Second)
 		var sb strings.Builder
@@ -494,7 +511,7 @@ func c12Locations(ctx *Ctx, sc c12Scenario, transitions, validated *int) {
 				sb.WriteString("=== " + n + "\n" + r.Files[n])
 			}
 		}
-		got := sb.String()
+		got := strings.ReplaceAll(sb.String(), l.dir, "$DIR")
 		*transitions++
 		*validated++
 		ctx.Run.Eval(fmt.Sprintf("loc|%s|%d", sc.name, i), i > 0)
@@ -502,7 +519,7 @@ func c12Locations(ctx *Ctx, sc c12Scenario, transitions, validated *int) {
 		if i == 0 {
 			ref = got
 		} else if got != ref {
-			ctx.Run.Violation("location-or-process", fmt.Sprintf("C12/%s: run %d (directory %q, absolute paths=%v, separate process) differs from run 0: %s", sc.name, i, l.dir, l.absolute, firstDiffLine(ref, got)),
+			ctx.Run.Violation("location-or-process", fmt.Sprintf("C12/%s: run %d (directory %q, arguments %q, separate process) differs from run 0: %s", sc.name, i, l.dir, args, firstDiffLine(ref, got)),
 				map[string]any{"kind": "cli", "files": sc.files, "args": args, "dir": l.dir, "reference": ref, "result": got})
 		}
 		os.RemoveAll(l.dir)
